@@ -10,7 +10,8 @@
 (*   the hook events of the run, in order:                                   *)
 (*        Rule{a = index within kind, s = kind}  Pattern{a = 0|1}            *)
 (*        Element{a = index}  Raise{s = next|exit}  Consume{s = next}        *)
-(*        Decoded{a = number of the file (1-based)}                          *)
+(*        Decoded{a = number of the file (1-based)}  Round (a selected root   *)
+(*        is taken up)                                                       *)
 (*   {"e":"End","s":class}   the outcome of EvalProgram                      *)
 (* Every line must be explained by the JqDriver action it names, enabled in  *)
 (* the current state with the logged outcome as parameter; actions the code  *)
@@ -48,6 +49,7 @@ TEnd ==
 Silent == Internal /\ UNCHANGED <<l, run>>
 
 TDecoded == Is("Decoded") /\ Ev.a = fi /\ NextValue /\ l' = l + 1 /\ UNCHANGED run
+TRound == Is("Round") /\ NextSelector /\ l' = l + 1 /\ UNCHANGED run
 TElement == Is("Element") /\ Ev.a = ei + 1 /\ NextElement /\ l' = l + 1 /\ UNCHANGED run
 
 RunByKind(sig) == RunBegin(sig) \/ RunBeginFile(sig) \/ RunEndFile(sig) \/ RunEnd(sig)
@@ -76,7 +78,7 @@ TConsume == Is("Consume") /\ Ev.s = "next" /\ ConsumeNext /\ l' = l + 1 /\ UNCHA
 TExit == Is("End") /\ Exit /\ UNCHANGED <<l, run>>
 TFinish == Is("End") /\ Finish /\ UNCHANGED <<l, run>>
 
-Next == TCfg \/ TEnd \/ Silent \/ TDecoded \/ TElement \/ TRulePlain \/ TTest \/ TBody \/ TConsume \/ TExit \/ TFinish
+Next == TCfg \/ TEnd \/ Silent \/ TDecoded \/ TRound \/ TElement \/ TRulePlain \/ TTest \/ TBody \/ TConsume \/ TExit \/ TFinish
 
 Spec == Init /\ [][Next]_tvars
 
